@@ -3,7 +3,7 @@
 Domain : as C01 (vf.pipeline configurations: Colang 1.0 / 2.x, dialog rails on/off, rails exceptions on/off, v2 rails in
          config.yml or hand-written) with 1-3 output rails (check / rewrite / block-or-rewrite / shipped `self check output`)
          and 0-2 input rails; conversations of 2-5 turns in which any turn may be the one that is rejected or
-         rewritten; routes alternate predefined and LLM-generated bot messages (v1 `$skip_output_rails`); in later turns
+         rewritten; routes alternate predefined and LLM-generated bot messages (v1 `$skip_output_rails`), v1 route act_var = text produced by an LLM-backed action and sent with `bot $answer`; in later turns
          the LLM may repeat verbatim the message text(s) it produced in an earlier turn (turn key `repeat_llm`) - the
          repeated text is checked material of the new turn under the new turn's verdicts.
 Oracle : reference model of the output chain (vf.pipeline.model_output) per LLM-generated text, memoryless over
@@ -65,6 +65,9 @@ def _case(draw):
     else:
         cfg["style"] = draw(st.sampled_from(["config", "hand"]))
     routes = pipeline.routes_for(cfg)
+    if v == 1 and cfg["dialog"]:
+        # the flow gets its text from an LLM-backed action and sends it with `bot $answer`: LLM-generated all the same
+        routes = tuple(routes) + ("act_var", "act_var")
     turns = []
     for t in range(draw(st.sampled_from([2, 2, 3, 3, 4, 5]))):
         repeat = draw(st.sampled_from([None, None, t - 1, t - 1, draw(st.integers(0, t - 1))])) if t >= 1 else None
@@ -112,6 +115,17 @@ def enumerate_cases(tier):
                             for t, (route, out) in enumerate([(first, ["accept"] * len(kinds)), ("llm", ev), ("llm", ["accept"] * len(kinds))]):
                                 turns.append({"user": f"{fakes.mk_user(t)} how is the weather", "route": route, "in": ["accept"], "out": out, "body": "some answer"})
                             yield {"config": cfg, "turns": turns, "api": "sync"}
+
+    # LLM text obtained by an LLM-backed action and sent with `bot $answer` (Colang 1.0)
+    for kinds in (["check"], ["both", "check"]):
+        for exc in (False, True):
+            cfg = {"v": 1, "in": [], "out": kinds, "dialog": True, "exc": exc, "ret": 0}
+            A = ["accept"] * len(kinds)
+            for ev in (A, A[:-1] + ["reject"], ["reject"] + A[1:]) + ((["rewrite"] + A[1:],) if kinds[0] == "both" else ()):
+                turns = []
+                for t, (route, out) in enumerate([("llm", A), ("act_var", ev), ("act_var", A), ("llm", A)]):
+                    turns.append({"user": f"{fakes.mk_user(t)} what is the answer", "route": route, "in": [], "out": out, "body": "some answer"})
+                yield {"config": cfg, "turns": turns, "api": "sync"}
 
     # the LLM repeats itself: turn 0 produces a text, turns 1 and 2 produce the identical text again
     for v in (1, 2):
